@@ -218,6 +218,9 @@ def run(ctx):
 
     rn = P.fn("carquet_read_next_page", PR)
     _page_cursor(ctx, rn)
+    ctx.clause("C02.8 what remains of a chunk is never judged by comparing stored (compressed, header-carrying) bytes with uncompressed bytes")
+    from ..rules import sizekind
+    ctx.count("byte_kind_comparisons", sizekind.check(ctx, P.funcs_under("src/reader/")))
     ctx.clause("C02.6 the batch reader's projection is the caller's list, in the caller's order, for every width (by index or by name)")
     _projection(ctx)
     ctx.clause("C02.7 a read that spans pages appends every page's values, definition and repetition levels where the previous page stopped")
